@@ -9,6 +9,11 @@ pub fn verif_root() -> PathBuf {
     std::env::var("VERIF_ROOT").map_or_else(|_| PathBuf::from("/verif"), PathBuf::from)
 }
 
+/// The repository the harness was built against (/repo unless the tooling built a scratch copy).
+pub fn repo_root() -> String {
+    std::env::var("VERIF_REPO").unwrap_or_else(|_| "/repo".to_string())
+}
+
 #[derive(Debug, Clone, Copy, PartialEq, Eq)]
 pub enum Tier {
     Quick,
